@@ -20,7 +20,7 @@ tvars == <<l, obs, free>>
 
 (* clock value of a publication: the harness clock at the hook when the harness controls the schedule (nothing
    can tick in between); in a free-running execution the value the code itself read (ticks race with the hook) *)
-PubNow(ev, fr) == IF fr /\ "cnow" \in DOMAIN ev THEN ev.cnow ELSE ev.now
+PubNow(ev, fr) == IF (fr \/ ("inside" \in DOMAIN ev /\ ev.inside)) /\ "cnow" \in DOMAIN ev THEN ev.cnow ELSE ev.now
 
 Range(s) == {s[i] : i \in DOMAIN s}
 
@@ -35,13 +35,14 @@ Apply(o, ev, fr) ==
     [] ev.op = "Age"     -> O!OAge(o, ev.r, ev.age, ev.now)
     [] ev.op = "UpStart" -> O!OUpStart(o, ev.r)
     [] ev.op = "UpEnd"   -> O!OUpEnd(o, ev.r, ev.hasResp, ev.ttl)
-    [] ev.op = "Publish" -> O!OPublish(o, ev.e, ev.d, ev.k, ev.v, PubNow(ev, fr), ev.ttl)
-    [] ev.op = "Hfp"     -> O!OHfp(o, ev.e, ev.d, ev.k, PubNow(ev, fr), ev.eff)
+    [] ev.op = "Publish" -> O!OPublish(o, ev.e, ev.d, ev.k, ev.v, PubNow(ev, fr), ev.ttl, ev.st)
+    [] ev.op = "Hfp"     -> O!OHfp(o, ev.e, ev.d, ev.k, PubNow(ev, fr), ev.eff, ev.st)
     [] ev.op = "End"     -> O!OEnd(o, ev.r, ev.label, ev.err, ev.v)
     [] ev.op = "Removed" -> O!ORemoved(o, ev.d, ev.k)
     [] ev.op = "Purged"  -> O!OPurged(o, ev.d, ev.k, ev.ok)
     [] ev.op = "Loaded"  -> O!OLoaded(o, ev.r)
     [] ev.op = "Persisted" -> O!OPersisted(o, ev.k, ev.v, ev.ok)
+    [] ev.op = "SetTried" -> O!OSetTried(o, ev.k)
     [] ev.op = "PurgeCall"   -> O!OPurgeCall(o, Range(ev.ds), ev.k)
     [] ev.op = "PurgeReturn" -> O!OPurgeReturn(o, Range(ev.ds), ev.k)
     [] ev.op = "Evicted" -> O!OEvicted(o, ev.d, ev.k)
@@ -79,5 +80,7 @@ I_HfpLapses         == O!P_HfpLapses(obs)
 I_PurgeEffective    == O!P_PurgeEffective(obs)
 I_BadRecordIsMiss   == O!P_BadRecordIsMiss(obs)
 I_NoOwnError        == O!P_NoOwnError(obs)
+I_PublishedIsPersisted == O!P_PublishedIsPersisted(obs)
+I_NoWildRemoval     == O!P_NoWildRemoval(obs)
 I_NoStuck           == O!P_NoStuck(obs)
 =============================================================================
